@@ -1049,11 +1049,25 @@ pub fn c11(sc: &Scenario, hx: &Hx, chans: &[crate::exec::ChanStat], v: &mut Verd
             // an accepted call either was answered on the spot or was applied exactly once
             let immediate = w.apply_begin.is_none() && w.drained.is_none();
             if immediate {
-                let on_the_spot = matches!(w.status(), Some(St::RejExists)) || (w.is_upsert() && w.status() == Some(St::Accepted));
+                // an upsert is answered on the spot only when nothing is left for the worker to do:
+                // it carries neither a weight nor a value (a TTL moved within the expiry index)
+                let weightless_upsert = matches!(&w.op, Op::Upsert { val: None, weight: None, .. });
+                let on_the_spot = matches!(w.status(), Some(St::RejExists)) || (weightless_upsert && w.status() == Some(St::Accepted));
                 if !on_the_spot {
                     v.fail("C11", format!("C11/never-applied/{}", qctx), format!("{} was acknowledged {:?} but the worker never applied it", fmt_op(w), w.status()), hx.len);
                 }
             }
+        }
+    }
+    // nothing is dropped: without a shutdown no write call fails, however full the queue is
+    if !shutdown {
+        for w in hx.writes.iter().filter(|w| w.ret.is_some() && !w.ok && !w.refused) {
+            v.fail(
+                "C11",
+                format!("C11/write-call-failed-without-shutdown/{}", qctx),
+                format!("{} returned an error although shutdown() was never called: the write was dropped", fmt_op(w)),
+                w.ret.unwrap_or(hx.len),
+            );
         }
     }
     // per-thread and cross-thread order of application
@@ -1434,6 +1448,15 @@ pub fn c07_conc(_sc: &Scenario, hx: &Hx, v: &mut Verdict) {
                         id_key.insert(w.key_id, w.key);
                     } else if *st == St::RejExists {
                         raced = true; // the worker-side existence check fired: a stale caller-side check
+                    } else if *st == St::RejNoKey {
+                        // a put is refused because the key exists, is too heavy, or finds no room:
+                        // never because it "does not exist"
+                        v.fail(
+                            "C07",
+                            format!("C07/put-rejected-with-a-reason-no-put-can-have/conc,variant={}", opname(&w.op)),
+                            format!("{} was acknowledged Rejected(KeyDoesNotExist); k{} was {} when the worker picked it up", fmt_op(w), w.key, if at_begin.get(ack).map(|b| b.0.is_some()).unwrap_or(false) { "held" } else { "absent" }),
+                            *s,
+                        );
                     }
                 } else if kind == "Delete" && *st == St::Accepted {
                     present.remove(&w.key);
